@@ -304,8 +304,12 @@ def backlog_stage(ctx, thorough):
         case = {"proto": proto, "sent": r["sent"], "result": r}
         ctx.extra.setdefault("backlog_runs", []).append({k: r.get(k) for k in ("proto", "sent", "udp_after", "dec_after", "published", "max_same_payload", "drained")})
         if not r.get("drained"):
-            ctx.violation("%s: after the stalled workers were released the counters / the queue never came to rest (received %s, decoded %s, "
-                          "published %s after 30 s; %d datagrams were sent)" % (proto, r["udp_after"], r["dec_after"], r["published"], r["sent"]),
+            # still moving after 30 s: a runaway when the counters have passed what was sent; otherwise the machine was too slow to judge
+            if (r.get("udp_after") or 0) <= r["sent"] and (r.get("dec_after") or 0) <= r["sent"]:
+                raise vlib.Infra("backlog driver: the workers had not caught up after 30 s (received %s, decoded %s of %d sent): machine too busy"
+                                 % (r.get("udp_after"), r.get("dec_after"), r["sent"]))
+            ctx.violation("%s: after the stalled workers were released the counters never came to rest (received %s, decoded %s, "
+                          "published %s after 30 s; %d datagrams were sent)" % (proto, r.get("udp_after"), r.get("dec_after"), r.get("published"), r["sent"]),
                           case, key=proto + ":backlog-runaway")
         elif r["udp_after"] > r["sent"] or r["dec_after"] > r["udp_after"] or r["published"] > r["dec_after"] or r["max_same_payload"] > 3:
             ctx.violation("%s: full queue, then the workers caught up: %d datagrams sent, counted %d times as received, %d times as decoded, "
